@@ -15,7 +15,7 @@ TraceLog == ndJsonDeserialize("trace.ndjson")
 VARIABLE l
 tvars == <<vars, l>>
 
-Cfg0 == Cfg("http", "none", 0, "default", 100, 1, 0, 1, FALSE, FALSE, "canon")
+Cfg0 == Cfg("http", "none", 0, "default", 100, 1, 0, 1, FALSE, FALSE, "canon", "plain")
 TraceInit == /\ TLCSet(1, 1) /\ l = 1
              /\ cfg = Cfg0 /\ reqs = <<>> /\ pc = "fin" /\ Idle
 
